@@ -69,6 +69,20 @@ func mkInsts(r *Rng, n, groups int) []InstCfg {
 	return out
 }
 
+// lateOnDemote makes some instances register OnDemote late (at a random time in the plan) or
+// never; OnPromote is registered before Start as usual.
+func lateOnDemote(r *Rng, p *Plan, prob float64) {
+	for i := range p.Insts {
+		if !p.Insts[i].NoCallbacks && r.Bool(prob) {
+			if r.Bool(0.5) {
+				p.Insts[i].OnDemoteAfter = -1
+			} else {
+				p.Insts[i].OnDemoteAfter = r.Dur(p.H, p.Until/2+p.H)
+			}
+		}
+	}
+}
+
 // healthyStore: every invoke->return below bound (strictly).
 func healthyStore(r *Rng, bound time.Duration) StoreCfg {
 	// two legs, each up to bound/2 - 1
@@ -232,6 +246,7 @@ func init() {
 		}
 		p.Tail = p.TTL + 3*sec
 		p.Sched = SchedCfg{YieldProb: Pick(r, []float64{0, 0.1, 0.4}), StallMax: Pick(r, []time.Duration{0, 0, p.H / 20})}
+		lateOnDemote(r, p, 0.1)
 		return p
 	}
 }
@@ -287,6 +302,7 @@ func init() {
 		}
 		p.Note = fmt.Sprintf("fault kind %d at attempt %d", kind, k)
 		p.Until = t0 + 4*p.H + 5*T + p.TTL
+		lateOnDemote(r, p, 0.15)
 		p.Tail = 0
 		p.Sched = SchedCfg{YieldProb: Pick(r, []float64{0, 0.2}), StallMax: Pick(r, []time.Duration{0, 0, p.H / 50})}
 		return p
@@ -651,6 +667,11 @@ func init() {
 		p.Store = StoreCfg{Req: [2]Dur{0, hi}, Resp: [2]Dur{0, hi}, WatchDelay: [2]Dur{0, p.H / 10}}
 		p.Until = 4*p.H + time.Duration(n)*4*p.H + 8*p.H + 2*sec
 		p.Sched = SchedCfg{YieldProb: Pick(r, []float64{0, 0.2})}
+		if r.Bool(0.3) {
+			// late in the plan one instance is shut down gracefully with key deletion: if it is the
+			// leader, leadership moves on to the best of the rest; if it is not, nothing changes
+			p.Actions = append(p.Actions, Action{At: p.Until - r.Dur(6*p.H, 9*p.H), Kind: AStopCtx, Inst: r.Intn(n), DeleteKey: true, WaitForDemote: r.Bool(0.5)})
+		}
 		if r.Bool(0.4) {
 			// slow processes while everybody starts: takers stall up to 2H between a takeover's
 			// read and its write, so that the incumbent's refresh lands in between and whole
@@ -925,6 +946,7 @@ func init() {
 			}
 		}
 		statusCalls(r, p)
+		lateOnDemote(r, p, 0.15)
 		p.Tail = 0
 		p.Sched = SchedCfg{YieldProb: Pick(r, []float64{0.1, 0.3, 0.6}), StallMax: Pick(r, []time.Duration{0, 0, p.H / 20})}
 		if r.Bool(0.15) {
@@ -1063,6 +1085,9 @@ func enumerateStopPoint(p *Plan, seed uint64) {
 	statusCalls(r, p)
 	p.Note = fmt.Sprintf("stop point: op %d phase %s(+%d) variant %d", opn, phases[ph], delays[ph], k%uint64(len(variants)))
 	p.Until = 20*p.H + 3*p.TTL + 8*sec
+	if p.Family != "c02stop" {
+		lateOnDemote(r, p, 0.15)
+	}
 	p.Tail = 0
 	p.Sched = SchedCfg{YieldProb: Pick(r, []float64{0, 0.2, 0.5}), StallMax: 0}
 	if r.Bool(0.3) || opKind != "" && r.Bool(0.5) {
